@@ -85,6 +85,9 @@ struct St {
     trace_events: bool,
     max_map_len: usize,
     lonely_spins: u32,
+    /// (order, thread, site): the moment a thread *left* a send-type switch point,
+    /// i.e. the moment its operation was actually put into the queue
+    departures: Vec<(u32, usize, u16)>,
 }
 
 struct Shared {
@@ -147,6 +150,15 @@ impl Shared {
     }
 
     fn on_site(&self, me: usize, s: u16) {
+        self.on_site_inner(me, s);
+        if s == site::READ_BEFORE_SEND || s == site::WRITE_BEFORE_SEND {
+            let mut st = self.lock();
+            let n = st.departures.len() as u32 + 1;
+            st.departures.push((n, me, s));
+        }
+    }
+
+    fn on_site_inner(&self, me: usize, s: u16) {
         let mut st = self.lock();
         if std::thread::panicking() {
             // called from a destructor (LockScope) while this thread unwinds: only
@@ -406,7 +418,7 @@ pub fn run_sched_case(case: &SchedCase, prop: &str, trace: bool) -> SchedRun {
             blocked: vec![None; n],
             preempt: case.preempt.clone(),
             in_sync: vec![false; n],
-            trace_events: trace,
+            trace_events: trace || prop == "C12",
             ..St::default()
         }),
         cv: Condvar::new(),
@@ -477,6 +489,7 @@ pub fn run_sched_case(case: &SchedCase, prop: &str, trace: bool) -> SchedRun {
             Err(_) => lib_panics.push((t, "thread died outside catch_unwind".into(), String::new())),
         }
     }
+    let departures = sh.lock().departures.clone();
     let (abort, events) = {
         let st = sh.lock();
         stats.steps = st.step;
@@ -679,6 +692,115 @@ pub fn run_sched_case(case: &SchedCase, prop: &str, trace: bool) -> SchedRun {
         }
     }
 
+    // ---- C12: victims follow the order in which maintenance applied reads and writes ---
+    if prop == "C12" {
+        let maintenance_ran = events.iter().any(|e| e.2 == site::TRY_SYNC_WON || e.2 == site::SYNC_START || e.2 & site::LOCK_ACQUIRE != 0);
+        let only_get_insert = case.threads.iter().flatten().all(|o| matches!(o, TOp::Get { .. } | TOp::Insert { .. } | TOp::Advance { .. }));
+        let nk = case.cfg.nkeys;
+        let all_resident = (0..nk).all(|k| snap.has(k)) && snap.entries.len() as u32 == nk;
+        if !maintenance_ran && only_get_insert && all_resident && case.cfg.cap == Some(nk as u64) {
+            // nothing was applied before the final sync(): it applied every recorded
+            // read in recording order, then every queued write in queueing order
+            let ev_of = |r: &Rec, s: u16, last: bool| -> Option<u32> {
+                let (lo, hi) = (r.start.saturating_sub(off), r.end.saturating_sub(off));
+                let mut it = events.iter().filter(|e| e.1 == r.thread && e.2 == s && e.0 >= lo && e.0 <= hi).map(|e| e.0);
+                if last { it.last() } else { it.next() }
+            };
+            let mut order: Vec<u32> = (0..nk).collect();
+            let mut touch = |k: u32, order: &mut Vec<u32>| {
+                if let Some(p) = order.iter().position(|x| *x == k) {
+                    order.remove(p);
+                    order.push(k);
+                }
+            };
+            let mut reads: Vec<(u32, u32)> = Vec::new();
+            let mut writes: Vec<(u32, u32, u32)> = Vec::new(); // (enqueue order, map step, key)
+            let mut complete = true;
+            // the i-th read (write) departure of a thread belongs to its i-th get (insert):
+            // without a full queue every get / insert passes its send point exactly once
+            let mut per_thread: HashMap<(usize, u16), Vec<u32>> = HashMap::new();
+            for (n, t, s2) in &departures {
+                per_thread.entry((*t, *s2)).or_default().push(*n);
+            }
+            let mut idx_r: HashMap<usize, usize> = HashMap::new();
+            let mut idx_w: HashMap<usize, usize> = HashMap::new();
+            let mut by_thread: Vec<&Rec> = recs.iter().filter(|r| r.thread != usize::MAX).collect();
+            by_thread.sort_by_key(|r| (r.thread, r.idx));
+            for r in by_thread {
+                match &r.op {
+                    TOp::Get { k } => {
+                        let i = idx_r.entry(r.thread).or_insert(0);
+                        let d = per_thread.get(&(r.thread, site::READ_BEFORE_SEND)).and_then(|v| v.get(*i)).copied();
+                        *i += 1;
+                        match d {
+                            Some(n) => {
+                                if r.result.is_some() {
+                                    reads.push((n, *k))
+                                }
+                            }
+                            None => complete = false,
+                        }
+                    }
+                    TOp::Insert { k, .. } => {
+                        let i = idx_w.entry(r.thread).or_insert(0);
+                        let d = per_thread.get(&(r.thread, site::WRITE_BEFORE_SEND)).and_then(|v| v.get(*i)).copied();
+                        *i += 1;
+                        match (d, ev_of(r, site::INSERT_AFTER_MAP, false)) {
+                            (Some(e), Some(m)) => writes.push((e, m, *k)),
+                            _ => complete = false,
+                        }
+                    }
+                    _ => {}
+                }
+            }
+            // a retry (full queue) would break the one-departure-per-op mapping
+            if stats.retry_yields > 0 {
+                complete = false;
+            }
+            if complete {
+                reads.sort();
+                writes.sort();
+                for (_, k) in &reads {
+                    touch(*k, &mut order);
+                }
+                for (_, m, k) in &writes {
+                    // only the write whose entry is the key's current one is applied
+                    let current = writes.iter().filter(|w| w.2 == *k).map(|w| w.1).max() == Some(*m);
+                    if current {
+                        touch(*k, &mut order);
+                    }
+                }
+                // reveal the cache's LRU order through the evictions of popular newcomers
+                let mut victims: Vec<u32> = Vec::new();
+                let mut conclusive = true;
+                for j in 0..nk {
+                    let f = 4_000_000 + j;
+                    for _ in 0..16 {
+                        let _ = cache.get(&TK::new(f, &reg));
+                    }
+                    cache.sync();
+                    let before = sync_snapshot(&cache);
+                    let seq = seqs.fetch_add(1, Ordering::SeqCst);
+                    cache.insert(TK::new(f, &reg), TV::new(seq, 1, &reg));
+                    cache.sync();
+                    let after = sync_snapshot(&cache);
+                    let gone: Vec<u32> = before.entries.iter().map(|e| e.k).filter(|k| !after.has(*k)).collect();
+                    if !after.has(f) || gone.len() != 1 {
+                        conclusive = false;
+                        break;
+                    }
+                    victims.push(gone[0]);
+                }
+                if conclusive {
+                    stats.refill_checked = true;
+                    if victims != order {
+                        mkret!(Violation { prop: "C12", step: stats.steps as usize, msg: format!("no maintenance ran while the threads were active, so the final sync() applied the recorded reads {:?} (in recording order) and then the queued writes {:?} (enqueue step, map-update step, key); that leaves the residents in LRU->MRU order {:?}, but admitting {} popular newcomers one by one evicted them in the order {:?}", reads, writes, order, nk, victims) });
+                    }
+                }
+            }
+        }
+    }
+
     // ---- C03: nothing is lost below capacity (unbounded configurations) -----------
     // (C07 runs the same oracle for its "precise" clause: keys re-inserted after an
     // invalidation remain retrievable)
@@ -771,7 +893,43 @@ fn top(nkeys: u32, fill: bool) -> BoxedStrategy<TOp> {
     proptest::strategy::Union::new_weighted(v).boxed()
 }
 
+/// C12: all keys resident, periodic-sync window left, threads only get / insert
+/// (and step the clock by 1 ns), fewer operations than the queue flush point.
+fn recency_strategy(thorough: bool) -> BoxedStrategy<SchedCase> {
+    let max_pre = if thorough { 6usize } else { 4 };
+    (2u32..5, 2usize..4, any::<u8>())
+        .prop_flat_map(move |(nkeys, nthreads, first)| {
+            let op = prop_oneof![
+                5 => (0..nkeys).prop_map(|k| TOp::Get { k }),
+                3 => (0..nkeys).prop_map(|k| TOp::Insert { k, w: 1 }),
+                2 => Just(TOp::Advance { ns: 1 }),
+            ];
+            (
+                Just(nkeys),
+                proptest::collection::vec(proptest::collection::vec(op, 1..6), nthreads..=nthreads),
+                proptest::collection::vec((0u32..65536, any::<u8>()), 1..=max_pre),
+                Just(first),
+            )
+        })
+        .prop_map(|(nkeys, threads, preempt, first)| {
+            let cfg = Cfg { kind: Kind::Sync, cap: Some(nkeys as u64), weigher: WeigherKind::None, ttl: None, tti: None, hasher: HasherKind::Sip, init_cap: None, nkeys };
+            let mut init: Vec<TOp> = (0..nkeys).map(|k| TOp::Insert { k, w: 1 }).collect();
+            init.push(TOp::Sync);
+            init.push(TOp::Advance { ns: 501 * MS });
+            let total_ops: u32 = threads.iter().map(|t| t.len() as u32).sum();
+            let est_len = 10 * total_ops + 4;
+            let mut preempt: Vec<(u32, u8)> = preempt.into_iter().map(|(f, c)| (1 + ((f as u64 * est_len as u64) >> 16) as u32, c)).collect();
+            preempt.sort();
+            preempt.dedup_by_key(|p| p.0);
+            SchedCase { cfg, init, threads, preempt, first }
+        })
+        .boxed()
+}
+
 pub fn sched_strategy(prop: &str, thorough: bool) -> BoxedStrategy<SchedCase> {
+    if prop == "C12" {
+        return recency_strategy(thorough);
+    }
     let fill = prop == "C09" || prop == "C04";
     let max_pre = if thorough { 8usize } else { 4 };
     (1u32..4, 2usize..5, any::<u8>(), any::<u8>(), any::<u8>(), any::<u8>(), any::<u8>())
@@ -835,6 +993,7 @@ pub const RULE: &str = "small concurrent programs (2-4 real threads x 1-6 ops ov
 pub fn nontrivial(prop: &str, st: &SchedStats) -> bool {
     match prop {
         "C09" => st.overlapping_sync || st.write_queue_filled || st.forced_switches > 0,
+        "C12" => st.refill_checked && st.used_preemptions >= 1,
         "C07" => st.had_invalidation && st.used_preemptions >= 1 && st.shared_key_with_writer,
         _ => st.shared_key_with_writer && st.used_preemptions >= 1,
     }
